@@ -4,7 +4,7 @@ import SleapVerif.Model.TrainTrace
 Lines (flags: model ∈ single_instance|centroid|centered_instance|bottomup, fw ∈ torch_dataset|torch_dataset_np_chunks,
 four booleans wandb ckpt structured delete, then `<n> b1 … bn` = per-epoch "val loss improved"):
 
-`trace <repaired|asis> <flags> <rounds>`  →  `ok e1 e2 …`          (events, see `Event.str`)
+`trace <repaired|asis|keyfixed> <flags> <rounds>`  →  `ok e1 e2 …`          (events, see `Event.str`)
 `fs    <repaired|asis> <flags> <rounds>`  →  `ok s0 | s1 | … | sN` (file system at every crash point, `-` = empty)
 `tracer <repaired|asis> <flags2> <rounds2>`                   →  events of a run with use_existing_chunks (run 2)
 `fsr    <repaired|asis> <flags1> <rounds1> <flags2> <rounds2>` →  file system at every crash point of run 2,
@@ -14,7 +14,8 @@ open SleapVerif SleapVerif.Proto SleapVerif.TrainTrace
 
 def pVersion : P Version := do
   let t ← tok
-  if t = "repaired" then pure .repaired else if t = "asis" then pure .asIs else failure
+  if t = "repaired" then pure .repaired else if t = "asis" then pure .asIs
+  else if t = "keyfixed" then pure .keyFixed else failure
 
 def pModel : P ModelType := do
   let t ← tok
